@@ -13,6 +13,7 @@ import (
 	"fmt"
 	"net"
 	"os"
+	"sync"
 	"sync/atomic"
 	"time"
 )
@@ -23,7 +24,7 @@ func init() {
 
 type blkCase struct {
 	Idx    int    `json:"idx"`
-	Call   string `json:"call"`   // ReadBytes | Peek | Discard | ReadByte | Read | ReadString | Flush | AcceptStream | Handshake
+	Call   string `json:"call"`   // ReadBytes | Peek | Discard | ReadByte | Read | ReadString | OnDataRead | Flush | AcceptStream | Handshake
 	Event  string `json:"event"`  // data | data-two-parts | deadline | local-close | peer-close | session-close | peer-session-close | queue-drained | stream-closed
 	Timing string `json:"timing"` // before | window | parked
 	Memfd  bool   `json:"memfd"`
@@ -39,6 +40,33 @@ type blkResult struct {
 }
 
 const blkBound = 5 * time.Second
+
+// blkCb: callback-mode reader whose OnData asks for more than it was offered (a blocking read inside the callback goroutine)
+type blkCb struct {
+	want    int
+	entered chan struct{}
+	done    chan struct{}
+	once    sync.Once
+	n       int
+	err     error
+	retAt   time.Time
+}
+
+func (b *blkCb) OnData(r BufferReader) {
+	first := false
+	b.once.Do(func() { first = true })
+	if !first {
+		return
+	}
+	close(b.entered)
+	var got []byte
+	got, b.err = r.ReadBytes(b.want)
+	b.n = len(got)
+	b.retAt = time.Now()
+	close(b.done)
+}
+func (b *blkCb) OnLocalClose()  {}
+func (b *blkCb) OnRemoteClose() {}
 
 // blkWait waits for the waiter after the releasing event happened.
 func blkWait(done chan struct{}, can *canary) (ok bool, healthy bool, took time.Duration) {
@@ -186,6 +214,7 @@ func runBlockCase(c *checkCtx, cs blkCase, can *canary) (res blkResult) {
 		}
 	}
 	var retAt time.Time
+	var cbRef interface{}
 	call := func() {
 		defer close(done)
 		defer func() { retAt = time.Now() }()
@@ -217,6 +246,29 @@ func runBlockCase(c *checkCtx, cs blkCase, can *canary) (res blkResult) {
 		case "AcceptStream":
 			_, callErr = p.server.AcceptStream()
 		}
+	}
+	if cs.Call == "OnDataRead" {
+		// callback mode: 10 bytes arrive, OnData is entered and asks for 10+want bytes: it blocks inside the callback goroutine
+		cb := &blkCb{want: 10 + want, entered: make(chan struct{}), done: make(chan struct{})}
+		if err := cl.SetCallbacks(cb); err != nil {
+			res.inconcl = "SetCallbacks: " + err.Error()
+			return
+		}
+		sv.BufferWriter().WriteBytes(make([]byte, 10))
+		if err := sv.Flush(false); err != nil {
+			res.inconcl = "server flush: " + err.Error()
+			return
+		}
+		select {
+		case <-cb.entered:
+		case <-time.After(5 * time.Second):
+			res.inconcl = "OnData was not entered"
+			return
+		}
+		done = cb.done
+		call = func() {}
+		cbRef = cb
+		needAtLeast = 10 + want
 	}
 	var happened time.Time
 	var ferr string
@@ -275,6 +327,9 @@ func runBlockCase(c *checkCtx, cs blkCase, can *canary) (res blkResult) {
 			res.inconcl = "call did not return within the bound, but the machine was overloaded (canary)"
 		}
 		return
+	}
+	if cb, _ := cbRef.(*blkCb); cb != nil {
+		callErr, callN, retAt = cb.err, cb.n, cb.retAt
 	}
 	if callErr != nil {
 		res.err = callErr.Error()
@@ -430,7 +485,7 @@ func runBlockHandshake(cs blkCase, can *canary) (res blkResult) {
 }
 
 func checkBlock(c *checkCtx) {
-	c.rule = "scenario table = blocking call (ReadBytes, Peek, Discard, ReadByte, ReadString, Read, Flush on a full queue, AcceptStream, handshake) x " +
+	c.rule = "scenario table = blocking call (ReadBytes, Peek, Discard, ReadByte, ReadString, Read, a ReadBytes inside a data callback, Flush on a full queue, AcceptStream, handshake) x " +
 		"releasing event (data, data in two parts, deadline, local close from another goroutine, peer closes the stream, local/peer session close, " +
 		"silent handshake peer) x timing (event before the call / inside the test-then-subscribe window held open with the ReadMoreBeforeWait hook / " +
 		"after the waiter parked) x mapping type, repeated with different park delays; a case is non-trivial when the call really had to wait for the " +
@@ -456,6 +511,10 @@ func checkBlock(c *checkCtx) {
 					cases = append(cases, blkCase{Call: call, Event: ev, Timing: tm, Memfd: (len(cases)+rep)%2 == 0, Rep: rep})
 				}
 			}
+		}
+		for _, ev := range []string{"data", "data-two-parts", "deadline", "peer-close", "session-close", "peer-session-close"} {
+			// a blocking read inside a data callback (callback mode)
+			cases = append(cases, blkCase{Call: "OnDataRead", Event: ev, Timing: "parked", Memfd: rep%2 == 1, Rep: rep})
 		}
 		for _, ev := range []string{"deadline", "stream-closed", "queue-drained", "session-close", "none"} {
 			cases = append(cases, blkCase{Call: "Flush", Event: ev, Timing: "parked", Memfd: rep%2 == 0, Rep: rep})
